@@ -598,10 +598,11 @@ class CalculationService(BaseSubscriber):
         to_subscribe = set()
         for msg_type in affector_spec.modifier.revise_msg_types:
             # Subscribe service to new message type only if there's no such
-            # subscription yet
+            # subscription on this fit yet (service is shared by all the fits
+            # of solar system, while subscriptions are per-fit)
             if (
                 msg_type not in self._handler_map and
-                msg_type not in self.__subscribed_affectors
+                not self.__has_fit_subscribers(fit, msg_type)
             ):
                 to_subscribe.add(msg_type)
             # Add affector spec to subscriber map to let it receive messages
@@ -616,14 +617,21 @@ class CalculationService(BaseSubscriber):
             # Make sure affector spec will not receive messages anymore
             self.__subscribed_affectors.rm_data_entry(msg_type, affector_spec)
             # Unsubscribe service from message type if there're no recipients
-            # anymore
+            # on this fit anymore
             if (
                 msg_type not in self._handler_map and
-                msg_type not in self.__subscribed_affectors
+                not self.__has_fit_subscribers(fit, msg_type)
             ):
                 to_ubsubscribe.add(msg_type)
         if to_ubsubscribe:
             fit._unsubscribe(self, to_ubsubscribe)
+
+    def __has_fit_subscribers(self, fit, msg_type):
+        """Check if any affector spec of the fit receives the message type."""
+        for affector_spec in self.__subscribed_affectors.get(msg_type, ()):
+            if affector_spec.item._fit is fit:
+                return True
+        return False
 
     # Warfare buffs-related methods
 
